@@ -27,21 +27,39 @@ BIN=$ROOT/fuzz/target/x86_64-unknown-linux-gnu/release
 HARNESS=$ROOT/harness/target/release/verif
 WORK=$ROOT/fuzz/work/$ID.$$
 rc=0
+JOBS="${VERIF_FUZZ_JOBS:-8}"          # parallel libFuzzer instances per target (each gets runs/JOBS and its own seed)
+MAXT="${VERIF_FUZZ_MAX_S:-600}"       # wall cap per instance; what was executed is what is reported
 for item in $PLAN; do
   T=${item%%:*}; rest=${item#*:}; RUNS=${rest%%:*}; MAXLEN=${rest#*:}
-  RUNS=$(( RUNS * SCALE / 100 ))
-  mkdir -p "$WORK/$T/corpus" "$WORK/$T/art"
-  VERIF_FUZZ_PROP="$ID" $HARNESS gen-fuzz-corpus "$T" "$WORK/$T/corpus" >/dev/null
-  VERIF_FUZZ_PROP="$ID" "$BIN/$T" -runs=$RUNS -seed=$(( SEED % 4294967295 + 1 )) -len_control=0 -max_len=$MAXLEN \
-      -rss_limit_mb=6000 -malloc_limit_mb=2000 -timeout=60 -print_final_stats=1 \
-      -artifact_prefix="$WORK/$T/art/" "$WORK/$T/corpus" > "$WORK/$T/log.txt" 2>&1
-  frc=$?
-  execs=$(grep -m1 "stat::number_of_executed_units" "$WORK/$T/log.txt" | awk '{print $2}')
-  echo "fuzz target=$T runs=${execs:-?} exit=$frc"
+  RUNS=$(( RUNS * SCALE / 100 / JOBS + 1 ))
+  mkdir -p "$WORK/$T/seedcorpus"
+  VERIF_FUZZ_PROP="$ID" $HARNESS gen-fuzz-corpus "$T" "$WORK/$T/seedcorpus" >/dev/null
+  pids=""
+  for j in $(seq 1 $JOBS); do
+    mkdir -p "$WORK/$T/c$j" "$WORK/$T/art$j"
+    cp "$WORK/$T/seedcorpus"/* "$WORK/$T/c$j/" 2>/dev/null
+    ( VERIF_FUZZ_PROP="$ID" "$BIN/$T" -runs=$RUNS -seed=$(( (SEED + j) % 4294967295 + 1 )) -len_control=0 -max_len=$MAXLEN \
+        -max_total_time=$MAXT -rss_limit_mb=6000 -malloc_limit_mb=2000 -timeout=120 -print_final_stats=1 \
+        -artifact_prefix="$WORK/$T/art$j/" "$WORK/$T/c$j" > "$WORK/$T/log$j.txt" 2>&1; echo $? > "$WORK/$T/exit$j" ) &
+    pids="$pids $!"
+  done
+  wait $pids
+  execs=0; frc=0; art=""
+  for j in $(seq 1 $JOBS); do
+    e=$(grep -m1 "stat::number_of_executed_units" "$WORK/$T/log$j.txt" | awk '{print $2}')
+    execs=$(( execs + ${e:-0} ))
+    x=$(cat "$WORK/$T/exit$j" 2>/dev/null || echo 99)
+    if [ "$x" != 0 ]; then
+      frc=$x
+      a=$(ls "$WORK/$T/art$j/" 2>/dev/null | head -1)
+      [ -z "$art" ] && [ -n "$a" ] && art="$WORK/$T/art$j/$a"
+      cp "$WORK/$T/log$j.txt" "$WORK/$T/log.txt"
+    fi
+  done
+  echo "fuzz target=$T instances=$JOBS runs=$execs exit=$frc"
   if [ $frc -ne 0 ]; then
-    art=$(ls "$WORK/$T/art/" 2>/dev/null | head -1)
     if [ -n "$art" ]; then
-      rp=$(VERIF_FUZZ_PROP="$ID" $HARNESS artifact "$T" "$WORK/$T/art/$art")
+      rp=$(VERIF_FUZZ_PROP="$ID" $HARNESS artifact "$T" "$art")
       if [ -n "$rp" ] && ! $HARNESS replay "$rp" >"$WORK/$T/replay.txt" 2>&1; then
         grep -m1 "^replay fails" "$WORK/$T/replay.txt"
         echo "VIOLATION property=$ID replay=$rp"
